@@ -83,10 +83,13 @@ Definition catches (tuple : list string) (e : exc) : bool :=
 (* Python call binding of positional and keyword arguments against a signature without defaults *)
 
 Fixpoint bind_pos (params : list string) (pos : list pyval) : env * list string * list pyval :=
-  match params, pos with
-  | p :: ps, v :: vs => let '(e, rest, extra) := bind_pos ps vs in ((p, v) :: e, rest, extra)
-  | [], vs => ([], [], vs)
-  | ps, [] => ([], ps, [])
+  match params with
+  | [] => ([], [], pos)
+  | p :: ps =>
+      match pos with
+      | [] => ([], params, [])
+      | v :: vs => let '(e, rest, extra) := bind_pos ps vs in ((p, v) :: e, rest, extra)
+      end
   end.
 
 Fixpoint bind_kw (params missing : list string) (has_kwarg : bool) (kw : list (string * pyval))
@@ -182,14 +185,26 @@ Definition x_bin (o : binop) (a b : xval) : res xval :=
   | _, _, _ => Err TypeError
   end.
 
-Definition mk_range (lo hi : pyval) : res xval :=
+Definition range_bounds (lo hi : pyval) : res (Z * Z) :=
   match lo, hi with
   | VFloat _ _ _, _ | _, VFloat _ _ _ => Err TypeError
   | _, _ => match int_of lo, int_of hi with
-            | Some l, Some h => Ok (XRange l h)
+            | Some l, Some h => Ok (l, h)
             | _, _ => Err TypeError
             end
   end.
+Definition mk_range (lo hi : pyval) : res xval :=
+  let* b := range_bounds lo hi in Ok (XRange (fst b) (snd b)).
+
+(* lazy any / all / sum over a generator *)
+Fixpoint any_res {X} (f : X -> res bool) (l : list X) : res bool :=
+  match l with [] => Ok false | x :: r => let* b := f x in if b then Ok true else any_res f r end.
+Fixpoint all_res {X} (f : X -> res bool) (l : list X) : res bool :=
+  match l with [] => Ok true | x :: r => let* b := f x in if b then all_res f r else Ok false end.
+Fixpoint sum_res {X} (f : X -> res Z) (l : list X) (acc : Z) : res Z :=
+  match l with [] => Ok acc | x :: r => let* n := f x in sum_res f r (acc + n) end.
+Definition x_int (t : xval) : res Z :=
+  match t with XV tv => match int_of tv with Some n => Ok n | None => Err OtherExc end | _ => Err OtherExc end.
 
 Definition as_val (x : xval) : res pyval := match x with XV v => Ok v | _ => Err OtherExc end.
 
@@ -234,23 +249,11 @@ Section Eval.
             let* src := ev en it in
             let* items := x_iter src in
             if String.eqb f "any" then
-              (fix go (l : list pyval) : res xval := match l with
-                 | [] => Ok (XV (VBool false))
-                 | v :: r => let* t := ev ((x, v) :: en) elt in
-                             if x_truthy t then Ok (XV (VBool true)) else go r end) items
+              let* b := any_res (fun v => let* t := ev ((x, v) :: en) elt in Ok (x_truthy t)) items in Ok (XV (VBool b))
             else if String.eqb f "all" then
-              (fix go (l : list pyval) : res xval := match l with
-                 | [] => Ok (XV (VBool true))
-                 | v :: r => let* t := ev ((x, v) :: en) elt in
-                             if x_truthy t then go r else Ok (XV (VBool false)) end) items
+              let* b := all_res (fun v => let* t := ev ((x, v) :: en) elt in Ok (x_truthy t)) items in Ok (XV (VBool b))
             else if String.eqb f "sum" then
-              (fix go (l : list pyval) (acc : Z) : res xval := match l with
-                 | [] => Ok (XV (VInt acc))
-                 | v :: r => let* t := ev ((x, v) :: en) elt in
-                             match t with
-                             | XV tv => match int_of tv with Some n => go r (acc + n) | None => Err OtherExc end
-                             | _ => Err OtherExc
-                             end end) items 0
+              let* n := sum_res (fun v => let* t := ev ((x, v) :: en) elt in x_int t) items 0 in Ok (XV (VInt n))
             else Err OtherExc
         | _ =>
             let* vals :=
